@@ -131,11 +131,11 @@ def build(T, mods, atoms, rnd=None, data_hook=None):
 class Dumper(object):
     """Dumps raw pointer graphs with indices that are stable over one case."""
 
-    def __init__(self, atoms, with_chars=False):
+    def __init__(self, atoms, lab_chars=False):
         self.atoms = atoms
         self.index = {}
         self.objs = []
-        self.with_chars = with_chars
+        self.lab_chars = lab_chars
 
     def idx(self, o):
         k = id(o)
@@ -217,8 +217,8 @@ class Dumper(object):
                    'edge': ab(d.get('edge')),
                    'head': self._flag(d, 'head'), 'split': self._flag(d, 'split'),
                    'hb': self._flag(d, 'head_block'), 'bn': bn}
-            if self.with_chars:
-                rec['labc'] = chars(d.get('label'))
+            if self.lab_chars:
+                rec['lab'] = chars(d.get('label'))
             recs.append(rec)
         # indices may have grown while building records (parents registered late)
         if len(recs) < len(self.objs):
